@@ -137,6 +137,12 @@ def txMonitors (P : Params) (lt : LastTx) (chs : List Change) (dOld : Dump) (blo
         if t.typ == 9 && a == issuerHex then
           out := s!"VIOL C21 redeemed-check-overdraws-issuer {c.key} {c.old.getD "0"}->{c.new.getD "0"} value={kvGet lt.kvs "k.value"} code={lt.code}" :: out
     | _ => pure ()
+  -- C16: an accepted MoveStake names a target that is a candidate when the transaction is delivered; a fund frozen "towards"
+  -- nobody would come back to the owner's balance after the (shorter) move period: staked coins off schedule
+  if lt.code == 0 && t.typ == 27 then
+    let s0 : State := State.ofDump dOld
+    if !candExists s0 (t.hex "d.ToPubKey") then
+      out := s!"VIOL C16 move-accepted-towards-non-candidate to={t.str "d.ToPubKey"} from={t.str "d.FromPubKey"} coin={t.nat "d.Coin"} value={t.int "d.Value"}" :: out
   -- C14: best price first. Orders this delivery filled (volume reduced or closed; a cancel by the transaction itself is not a
   -- fill) against the orders of the same side of the same pool that it left exactly as they were.
   if lt.code == 0 then
